@@ -1136,3 +1136,28 @@ def mon_pull_limit(ops, lines):
             else:
                 started.pop(ot[1])
     return None
+
+
+def mon_create_delete_race(ops, lines):
+    """C11 at the quiescent moments of gen.create_delete_race_cases: what the topic lists is exactly what exists
+    (GetSubscription), and the topic still publishes."""
+    exists = {}
+    for i, (o, r) in enumerate(zip(ops, lines)):
+        ot, rt = o.split(" "), r.split(" ")
+        if r.startswith("!"):
+            return "C07-noanswer: op %d got %s" % (i, r[:60])
+        if ot[0] == "JOIN" and rt[2:] == ["-"]:
+            return "C07-pending: call %s has no answer although the server is idle" % ot[1]
+        if ot[0] == "GS":
+            exists[ot[1]] = rt[1:2] == ["0"]
+        if ot[0] == "LTS" and rt[1:2] == ["0"]:
+            listed = set(rt[3:3 + int(rt[2])])
+            for name, ex in exists.items():
+                if name in listed and not ex:
+                    return ("C11-stale-attachment: the topic lists %r at op %d, but GetSubscription answers NOT_FOUND"
+                            % (unhx(name), i))
+                if ex and name not in listed:
+                    return ("C16-half-created: %r exists at op %d but its topic does not list it" % (unhx(name), i))
+        if ot[0] == "PUB" and rt[1:2] != ["0"]:
+            return "C11-publish-fails: Publish on the live topic answered %s at op %d" % (rt[1] if len(rt) > 1 else "?", i)
+    return None
